@@ -245,7 +245,7 @@ func zzHTTPPool(steps int) {
 	verif.Replace("(*mosn.io/mosn/pkg/stream/http.connPool).createStreamClient", func(p *connPool, ctx context.Context, d types.CreateConnectionData) str.Client {
 		return w.zzNewClient(w.nextDial)
 	})
-	idle0 := verif.Choose("initial_idle", 3)
+	idle0 := verif.Choose("initial_idle", verif.Param("idle", 2, 3))
 	if maxConn > 0 && idle0 > int(maxConn) {
 		idle0 = int(maxConn)
 	}
